@@ -8,7 +8,7 @@
      Store            one batch  (block families + state + rolled-over bloom window + height)
      RevertHead       one batch
      SetL1Head        one put
-     Snapshot         one put    (WriteRunningEventFilter, the graceful-stop snapshot)
+     Snapshot         one put    (WriteRunningEventFilter: the graceful stop, the process ends)
      Prune(end)       HashKeyedBatch_1 .. HashKeyedBatch_m ; RangeDeleteBatch   (pruner.PruneUpto,
                       started by the pruner service which first raises the in-memory floor)
      Restart          mem := re-initialised from disk as RetentionFloor.Seed and (lazily)
@@ -31,12 +31,15 @@
                           closure, BEFORE the batch commits
      FixSnapshot          H2: a graceful-stop snapshot stays on disk and is reused by a later
                           (ungraceful) restart although blocks below its `next` were replaced
+                          (TRUE: the initialiser deletes the snapshot when it loads it)
      FixReorgWindow       onReorg across a window boundary deletes the persisted filter of the
                           window it LEAVES (never persisted) instead of the one it re-enters: the
                           stale persisted window makes the next restart start the running filter
                           in the wrong window, and every later Store fails
      FixPruneAtomicFloor  H12: a crash between two hash-keyed prune batches leaves blocks whose
                           lookups/history are gone while commitments still call them retained
+                          (TRUE: every flushed batch also carries the range deletes up to the
+                          block it reached, i.e. is a complete prune)
      FixCacheOnReorg      H1: the LRU of persisted windows is not invalidated by a reorg
 *)
 EXTENDS Integers, Sequences, FiniteSets, TLC
@@ -151,7 +154,7 @@ Rebuild(d) ==
       w0 == IF found0 THEN 1 ELSE Window(floor) IN
   Fill(d, [w |-> w0, next |-> from, c |-> {}], from, latest)
 
-InitRf(d) ==
+InitRfRaw(d) ==
   IF d.height = -1 THEN [ok |-> TRUE, rf |-> ZeroRf, d |-> d, puts |-> 0]
   ELSE LET latest == d.height
            s == d.snap IN
@@ -161,6 +164,14 @@ InitRf(d) ==
        THEN LET n0 == Max(s.next, Oldest(d)) IN
             Fill(d, [w |-> s.w, next |-> n0, c |-> s.c], n0, latest)
        ELSE Rebuild(d)
+
+(* FixSnapshot: the initialiser deletes the snapshot as soon as it has read it (one more durable
+   mutation), so that only the start directly following a graceful stop can use it. *)
+InitRf(d) ==
+  LET r == InitRfRaw(d) IN
+  IF FixSnapshot /\ d.height >= 0 /\ d.snap.present
+  THEN [r EXCEPT !.d = [r.d EXCEPT !.snap = NoSnap], !.puts = @ + 1]
+  ELSE r
 
 (* ensureInit: lazy, once; a failed initialisation is sticky (initErr). *)
 EnsureInit(d, m) ==
@@ -239,16 +250,16 @@ Store(outcome) ==
         /\ act' = [name |-> "Store", outcome |-> outcome, n |-> n]
         /\ ops' = ops + 1 /\ pc' = pc
         /\ IF m.rfErr \/ ~r.ok
-           THEN \* the closure fails before anything is committed
+           THEN \* the closure fails (inside the filter update) before anything is committed
                 /\ outcome = "ok"
-                /\ disk' = d /\ mem' = m /\ alive' = TRUE /\ ver' = ver
+                /\ disk' = d /\ alive' = TRUE /\ ver' = ver
+                /\ mem' = IF FixMemAfterCommit /\ ~m.rfErr THEN Invalidate(m) ELSE m
                 /\ res' = [kind |-> "error", muts |-> e.puts]
            ELSE LET d1 == AddBlock(d, id)
                     d2 == IF r.ww.present THEN [d1 EXCEPT !.win = r.ww] ELSE d1
-                    d3 == IF FixSnapshot THEN [d2 EXCEPT !.snap = NoSnap] ELSE d2
                     mNew == [m EXCEPT !.rf = r.rf]
                     mFail == IF FixMemAfterCommit THEN Invalidate(m) ELSE mNew IN
-                /\ Commit(outcome, d, d3, mNew, mFail, e.puts)
+                /\ Commit(outcome, d, d2, mNew, mFail, e.puts)
                 /\ ver' = IF outcome = "fail" THEN ver ELSE [ver EXCEPT ![n] = @ + 1]
 
 \* ------------------------------------------------------------------ RevertHead
@@ -267,15 +278,15 @@ Revert(outcome) ==
         /\ ops' = ops + 1 /\ pc' = pc /\ ver' = ver
         /\ IF m.rfErr \/ ~r.ok
            THEN /\ outcome = "ok"
-                /\ disk' = d /\ mem' = [m EXCEPT !.rf = r.rf] /\ alive' = TRUE
+                /\ disk' = d /\ alive' = TRUE
+                /\ mem' = IF FixMemAfterCommit /\ ~m.rfErr THEN Invalidate(m) ELSE [m EXCEPT !.rf = r.rf]
                 /\ res' = [kind |-> "error", muts |-> e.puts]
            ELSE LET d1 == DelBlock(d, id)
                     d2 == IF r.crossed /\ FixReorgWindow THEN [d1 EXCEPT !.win = NoWin] ELSE d1
-                    d3 == IF FixSnapshot THEN [d2 EXCEPT !.snap = NoSnap] ELSE d2
                     mNew == [m EXCEPT !.rf = r.rf,
-                                      !.cache = IF r.crossed /\ FixCacheOnReorg THEN NoWin ELSE @]
+                                      !.cache = IF FixCacheOnReorg THEN NoWin ELSE @]
                     mFail == IF FixMemAfterCommit THEN Invalidate(m) ELSE [m EXCEPT !.rf = r.rf] IN
-                Commit(outcome, d, d3, mNew, mFail, e.puts)
+                Commit(outcome, d, d2, mNew, mFail, e.puts)
 
 \* ------------------------------------------------------------------ SetL1Head, Snapshot
 SetL1(n, outcome) ==
@@ -284,19 +295,23 @@ SetL1(n, outcome) ==
   /\ ops' = ops + 1 /\ pc' = pc /\ ver' = ver
   /\ Commit(outcome, disk, [disk EXCEPT !.l1 = n], mem, mem, 0)
 
+(* the graceful stop: WriteRunningEventFilter (one put), then the process ends whatever the
+   outcome of the put; only Restart is enabled afterwards *)
 Snapshot(outcome) ==
   /\ Ready
   /\ LET e == EnsureInit(disk, mem)
          d == e.d
-         m == e.m IN
+         m == e.m
+         dNew == [d EXCEPT !.snap = [present |-> TRUE, w |-> m.rf.w, next |-> m.rf.next, c |-> m.rf.c]] IN
      /\ act' = [name |-> "Snapshot", outcome |-> outcome, n |-> 0]
-     /\ ops' = ops + 1 /\ pc' = pc /\ ver' = ver
+     /\ ops' = ops + 1 /\ pc' = pc /\ ver' = ver /\ alive' = FALSE
      /\ IF m.rfErr
-        THEN /\ outcome = "ok" /\ disk' = d /\ mem' = m /\ alive' = TRUE
+        THEN /\ outcome = "ok" /\ disk' = d /\ mem' = Dead(d)
              /\ res' = [kind |-> "error", muts |-> e.puts]
-        ELSE Commit(outcome, d,
-                    [d EXCEPT !.snap = [present |-> TRUE, w |-> m.rf.w, next |-> m.rf.next, c |-> m.rf.c]],
-                    m, m, e.puts)
+        ELSE /\ disk' = IF outcome = "fail" THEN d ELSE dNew
+             /\ mem' = Dead(disk')
+             /\ res' = [kind |-> IF outcome = "fail" THEN "failed" ELSE IF outcome = "crash" THEN "crashed" ELSE "ok",
+                        muts |-> e.puts + 1]
 
 \* ------------------------------------------------------------------ Restart, Query
 Restart ==
@@ -350,7 +365,12 @@ PruneStep(outcome) ==
                                           \/ (pc.first /\ pc.start > 0 /\ i[1] = pc.start - 1))},
                      !.txl = {i \in @ : i[1] \notin blocks},
                      !.hist = {i \in @ : i[1] \notin blocks},
-                     !.com = IF FixPruneAtomicFloor THEN {i \in @ : i[1] >= pc.cur + nblk} ELSE @]
+                     \* FixPruneAtomicFloor: every flushed batch is a complete prune up to cur+nblk
+                     !.com = IF FixPruneAtomicFloor THEN {i \in @ : i[1] >= pc.cur + nblk} ELSE @,
+                     !.su = IF FixPruneAtomicFloor THEN {i \in @ : i[1] >= pc.cur + nblk} ELSE @,
+                     !.txs = IF FixPruneAtomicFloor THEN {i \in @ : i[1] >= pc.cur + nblk} ELSE @,
+                     !.hdr = IF FixPruneAtomicFloor THEN {i \in @ : i[1] >= pc.cur + nblk - Lag} ELSE @,
+                     !.win = IF FixPruneAtomicFloor /\ pc.cur + nblk >= Boundary THEN NoWin ELSE @]
          dRange == [d EXCEPT
                      !.hdr = {i \in @ : i[1] >= pc.cur - Lag},
                      !.com = {i \in @ : i[1] >= pc.cur},
@@ -436,5 +456,9 @@ StateReadsCorrect ==
              (n >= mem.floor /\ Len(disk.state) = disk.height + 1) =>
                \A k \in (n + 1)..disk.height : IdAt(disk, k) \in disk.hist
 
-FailedWriteAppliesNothing == [][res'.kind = "failed" => disk' = disk]_vars
+(* a failed write applies nothing (the lazy initialisation of the running filter, which may issue
+   its own durable put before the operation's batch, is not part of the failed write) *)
+FailedWriteAppliesNothing ==
+  [][res'.kind = "failed" =>
+       disk' = IF act'.name \in {"Store", "Revert", "Snapshot"} THEN EnsureInit(disk, mem).d ELSE disk]_vars
 =============================================================================
